@@ -141,3 +141,12 @@ Example c11_alias_must_be_classified :
   wf_cfg bad_cfg_alias_forgotten = false /\ requires_lock bad_cfg_alias_forgotten s_shell = false
   /\ wf_cfg good_cfg_allow_list = true.
 Proof. exact alias_forgotten. Qed.
+
+(* S28, fixed in /repo c594d9b: a bash call abandoned by its timeout whose command keeps running
+   (End after Release) breaks the discipline and mutual exclusion; with the fix the command is
+   killed when the call ends, which is what the model's IEnd stands for *)
+Example c11_timeout_unfixed_refuted :
+  daccept DOut timeout_unfixed_code = false
+  /\ is_open (trace (run timeout_unfixed_sys [0%nat; 0%nat; 0%nat; 0%nat; 0%nat; 1%nat; 1%nat])) 0%nat = true
+  /\ is_open (trace (run timeout_unfixed_sys [0%nat; 0%nat; 0%nat; 0%nat; 0%nat; 1%nat; 1%nat])) 1%nat = true.
+Proof. exact timeout_unfixed_refuted. Qed.
